@@ -1,0 +1,54 @@
+//go:build verif
+
+package service
+
+import (
+	"sort"
+	"time"
+)
+
+// VerifExtractor exposes the per-connection frame extractor / sub-package
+// reassembler (packageParse) to the verification harness. It is compiled only
+// with the build tag "verif" and does not alter any existing behaviour.
+type VerifExtractor struct {
+	p *packageParse
+}
+
+// NewVerifExtractor returns a fresh extractor, exactly as connection.reader creates one.
+func NewVerifExtractor() *VerifExtractor {
+	return &VerifExtractor{p: newPackageParse()}
+}
+
+// Feed hands one read-sized chunk to the real parse function.
+func (v *VerifExtractor) Feed(chunk []byte) ([]*Message, error) {
+	return v.p.parse(chunk)
+}
+
+// Advance makes every pending transfer look d older, which is equivalent to the
+// wall clock moving forward by d (the code only compares time.Now() with these fields).
+func (v *VerifExtractor) Advance(d time.Duration) {
+	for _, r := range v.p.timeoutRecord {
+		r.createTime = r.createTime.Add(-d)
+		r.updateTime = r.updateTime.Add(-d)
+	}
+}
+
+// Pending lists the message IDs that currently have an open sub-package transfer.
+func (v *VerifExtractor) Pending() []uint16 {
+	ids := make([]uint16, 0, len(v.p.subcontractingRecord))
+	for id := range v.p.subcontractingRecord {
+		ids = append(ids, id)
+	}
+	sort.Slice(ids, func(i, j int) bool { return ids[i] < ids[j] })
+	return ids
+}
+
+// HistoryLen is the number of buffered, not yet consumed bytes.
+func (v *VerifExtractor) HistoryLen() int {
+	return len(v.p.historyData)
+}
+
+// Clear runs the same cleanup the reader runs when a connection ends.
+func (v *VerifExtractor) Clear() {
+	v.p.clear()
+}
